@@ -71,8 +71,11 @@ func (l *leader) onChangeConfig(t changeConfig) {
 		return
 	}
 
+	latest := l.configs.Latest.Index
 	l.checkConfigActions(t.task, t.newConf)
-	if l.configs.IsCommitted() {
+	// with a single voter an entry stored by checkConfigActions is committed
+	// at once, so IsCommitted() cannot tell whether one was stored
+	if l.configs.Latest.Index == latest {
 		if trace {
 			println(l, "no configActions changed")
 		}
